@@ -366,8 +366,13 @@ package protocol
 
 // every result code the lock engine sends (0..RESULT_LOCK_ACK_WAITING) has a name in the table the text
 // writers index (C13); the engine side is the pre-condition of ServerProtocol.ProcessLockResultCommand
+// (C14: the counters a text LOCK / UNLOCK reply prints are the result's own LCOUNT, COUNT, LRCOUNT, RCOUNT fields)
 //@ func (*TextCommandConverter).WriteTextLockAndUnLockCommandResult
 //@   requires C13.result-code: lockCommandResult != nil && lockCommandResult.Result <= RESULT_LOCK_ACK_WAITING
+//@   at call Sprintf#5 assert C14.text.lcount: len(arg1) == 1 && istype(arg1[0], uint16) && astype(arg1[0], uint16) == lockCommandResult.Lcount
+//@   at call Sprintf#7 assert C14.text.count: len(arg1) == 1 && istype(arg1[0], uint16) && astype(arg1[0], uint16) == u16(lockCommandResult.Count + 1)
+//@   at call Sprintf#9 assert C14.text.lrcount: len(arg1) == 1 && istype(arg1[0], uint8) && astype(arg1[0], uint8) == lockCommandResult.Lrcount
+//@   at call Sprintf#11 assert C14.text.rcount: len(arg1) == 1 && istype(arg1[0], uint8) && astype(arg1[0], uint8) == u8(lockCommandResult.Rcount + 1)
 //@ func ITextProtocol.GetParser
 //@   preserves *
 
